@@ -172,9 +172,22 @@ func c06Callers(r *mc.Report) {
 	lat := c06Lattice()
 	n := 0
 	msg := inBubble(func() {
-		f := newC20Fix("history", 2, 50)
+		// nine table nodes: the first reports each radius of the lattice, five report the maximum
+		// (they cover everything, so more than four nodes are always in range), three report radius 1
+		f := newC20Fix("history", 9, 50)
 		defer f.close()
 		x := f.nodes[0]
+		one := uint256.NewInt(1)
+		reported := map[enode.ID]*uint256.Int{}
+		for i, nd := range f.nodes[1:] {
+			rad := new(uint256.Int).SetAllOne()
+			if i >= 5 {
+				rad = one
+			}
+			f.pong(nd, pingext.HistoryRadius, c20SSZ(rad))
+			reported[nd.ID()] = rad
+		}
+		synctest.Wait()
 		for _, radius := range lat {
 			f.pong(x, pingext.HistoryRadius, c20SSZ(radius))
 			synctest.Wait()
@@ -193,6 +206,12 @@ func c06Callers(r *mc.Report) {
 				}
 				chosen := slices.Contains(got, x.ID())
 				n++
+				for _, id := range got { // every other target too: its reported radius covers the content
+					if rad := reported[id]; rad != nil && !c20Dist(id, cid).Lt(rad) && !c20Dist(id, cid).Eq(rad) {
+						r.Violation("in-range-test-is-xor-distance-below-radius", "Gossip:offers-to-a-node-whose-radius-does-not-cover", fmt.Sprintf("a table node that reported radius %s is a gossip target for content at distance %s from it", rad.Hex(), c20Dist(id, cid).Hex()), c)
+						break
+					}
+				}
 				if d.Eq(radius) {
 					r.Exec(fmt.Sprintf("Gossip:boundary:%v", chosen))
 					c06Boundary.note(radius, "Gossip", chosen)
